@@ -958,6 +958,26 @@ func c20Sweep(c *lib.Ctx) []c20Case {
 			c20Case{Cell: fmt.Sprintf("crash/clear-recent-%d", k), Limit: 9, Events: append([]c20Op{c20A(plain(0)), c20A(plain(1)), c20A(plain(2)), c20A(plain(3)), x(c20Op{Kind: "C", A: 0, B: 0}, 3)}, tail...)},
 		)
 	}
+	// two process deaths in a row: the first inside a compaction (every step), the second inside the
+	// compaction the restarted process runs next (every step) — it meets whatever the first left behind
+	for k1 := 0; k1 <= 6; k1++ {
+		for k2 := 0; k2 <= 6; k2++ {
+			s1, s2 := c20A(plain(2)), c20A(plain(3))
+			evs := []c20Op{c20A(plain(0)), c20A(plain(1)), {Kind: "X", K: k1, N: 3, Sub: &s1}, {Kind: "X", K: k2, N: 3, Sub: &s2},
+				c20A(plain(4)), c20A(plain(5)), {Kind: "R", N: 3}, c20A(plain(6)), {Kind: "R", N: 3}}
+			cases = append(cases, c20Case{Cell: fmt.Sprintf("crash2/compact-%d-then-%d", k1, k2), Limit: 3, Events: evs})
+		}
+	}
+	// the next start has a lower limit than the history file has entries (no SetLimit in between)
+	for _, lim := range []int{0, 1, 3, 7} {
+		var evs []c20Op
+		for i := 0; i < 8; i++ {
+			evs = append(evs, c20A(plain(i)))
+		}
+		evs = append(evs, c20Op{Kind: "R", N: lim}, c20A(plain(20)), c20Op{Kind: "R", N: lim}, c20A(plain(21)), c20A(plain(22)), c20Op{Kind: "R", N: lim},
+			c20Op{Kind: "R", N: 10}, c20A(plain(23)), c20Op{Kind: "R", N: 10})
+		cases = append(cases, c20Case{Cell: fmt.Sprintf("restart/limit-10-to-%d", lim), Limit: 10, Events: evs})
+	}
 	// a compaction at a three digit limit (max = 110)
 	{
 		var evs []c20Op
@@ -1163,6 +1183,8 @@ func c20Replay(c *lib.Ctx) {
 		c20ReplayStash(c, req, rec)
 	case strings.HasPrefix(req, "hist cfg "):
 		c20ReplayCfg(c, req, rec)
+	case strings.HasPrefix(req, "hist ed "):
+		c20ReplayEditor(c, req)
 	default:
 		fmt.Println("replay file has no usable request")
 	}
@@ -1248,7 +1270,7 @@ func c20Emit(c *lib.Ctx, p *c20Problem, sweep bool) {
 		fam := p.sig[:strings.IndexAny(p.sig+"/", "/")]
 		c20Family[fam]++
 		// (grids only: in the form/, stash/ and init/ families every cell is a construct of its own)
-		grid := map[string]bool{"cell=clear": true, "cell=limit": true, "cell=crash": true, "cell=stash-clear": true, "cell=setq": true, "cell=setq-with": true}
+		grid := map[string]bool{"cell=clear": true, "cell=limit": true, "cell=crash": true, "cell=crash2": true, "cell=stash-clear": true, "cell=setq": true, "cell=setq-with": true}
 		if grid[fam] && c20Family[fam] > 3 {
 			c.Ev.Count("violations_not_reported_same_sweep_family", 1)
 			return
@@ -1344,13 +1366,16 @@ func runC20(c *lib.Ctx) {
 
 	nStash, nStashAgree := c20RunStash(c)
 	nCfg, nCfgAgree := c20RunCfg(c)
+	nEd, nEdAgree := c20RunEditor(c)
 	c20Flush(c)
+	c.Ev.Coverage["editor_cases"] = nEd
+	c.Ev.Coverage["editor_cases_in_agreement"] = nEdAgree
 	c.Ev.Coverage["stash_cases"] = nStash
 	c.Ev.Coverage["stash_cases_in_agreement"] = nStashAgree
 	c.Ev.Coverage["settings_cases"] = nCfg
 	c.Ev.Coverage["settings_cases_in_agreement"] = nCfgAgree
-	c.Ev.Coverage["traces_validated_against_impl"] = len(cases) + nStash + nCfg
-	c.Ev.Coverage["agreements"] = agree + nStashAgree + nCfgAgree
+	c.Ev.Coverage["traces_validated_against_impl"] = len(cases) + nStash + nCfg + nEd
+	c.Ev.Coverage["agreements"] = agree + nStashAgree + nCfgAgree + nEdAgree
 	c.Ev.Coverage["rule"] = "case = one session: initial history/history.tmp files + <=60 events (Add/Clear/SetLimit, restart, process death after k file-system steps of an operation); " +
 		"sweep cells (form classes in/outside the encoding guard, initial files, Clear(start,end) grid, limits 0..25 past two compactions with and without a stale tmp, a death at every step of every operation kind, >4096 bytes) are seed independent; composite sessions are random; " +
 		"after every event: memory vs model, file bytes vs model, fresh Load vs model and vs memory; with hooks every hook point's directory is loaded and checked against old/new/prefix-of-new and the model's crashAt k; " +
